@@ -254,61 +254,70 @@ def replay(spec):
 
 
 # ---------------------------------------------------------------------------------------------------------------------
-def run_proof(rep, tier):
-    """E1a: VCs generated from the real AST of util.toposort with the invariants of contracts/inv_toposort.py, discharged by z3.
-    On a failed obligation the exhaustive small-graph witness search (run_bounded) looks for a concrete failing graph."""
+def run_proof(rep, tier, which=("toposort", "backward_pass")):
+    """E1a: VCs generated from the real AST of util.toposort / core.backward_pass with the invariants of contracts/inv_toposort.py /
+    inv_backward.py, discharged by z3 (cvc5 second).  On a failed or unextractable obligation the exhaustive small-graph witness search
+    (run_bounded) looks for a concrete failing graph; without one the line ends no-failing-input-found."""
     import z3
 
+    import autograd.core as C
     import autograd.util as U
 
     from vlib import pyvc
     from vlib.smt import check_sat
 
-    from . import inv_toposort as SP
+    from . import inv_backward, inv_toposort
 
-    rep.function(FN_T, U.toposort)
-    rep.assume("parents() is a deterministic total function of the node; the graph under end_node is a finite DAG (rank witness)",
-               "least-fixpoint induction for reach (two instances) and well-founded descent on an integer rank bounded below (lemma L1) - stated as instances in contracts/inv_toposort.py",
-               "Python semantics assumed by the E1a encoding: mathematical ints; list = (array, length) with pop/append/extend at the end; dict = (key set, value map); "
-               "generator output as a ghost sequence; `for` over a sequence = indexed loop")
-    try:
-        gen = pyvc.VCGen(U.toposort, SP)
-        obl = gen.run()
-        if gen.loop_n != SP.EXPECT["loops"]:
-            raise pyvc.ExtractError(f"{gen.loop_n} loops, contract expects {SP.EXPECT['loops']}")
-    except pyvc.ExtractError as e:
-        rep.obligation(f"{FN_T}:extract", False, "-", 0, "E1a")
-        first = run_bounded(rep, tier, what=("toposort",))
-        if FN_T not in first:
-            rep.violation(f"{FN_T}:extract", "extract", f"the function no longer fits the verified subset / contract shape ({e}): the proof does not cover the running code",
-                          witness=False, solver_output=str(e))
-        return
+    rep.assume("parents() / node.parents is a deterministic total function of the node; the graph under end_node is a finite DAG (rank witness)",
+               "least-fixpoint induction for reach (instances) and well-founded descent on an integer rank bounded below (lemma L1) - stated as instances in the sidecars",
+               "Python semantics assumed by the E1a encoding: mathematical ints; list = (array, length) with pop/append/extend at the end; dict = (key set, value map) with get/pop/[]; "
+               "generator output as a ghost sequence; `for` over a sequence / zip = indexed loop; tuples (v, flag) as pairs",
+               "callee contracts used by backward_pass: toposort T1-T4 (proved here from its own source), add_outgrads AO-value/AO-own/AO-share (proved by E1b), node.vjp yields one cotangent per parent",
+               "adjoint recurrence G = path-sum of local derivatives (lemma L2, standard, not mechanised)")
+    jobs = [("toposort", U.toposort, inv_toposort, FN_T, ("toposort",)), ("backward_pass", C.backward_pass, inv_backward, FN_B, ("backward",))]
     budget = 15000 if tier == "quick" else 60000
-    failed = []
-    maxsecs = 0.0
-    for name, hyps, goal in obl:
-        if len(failed) >= 3:
-            rep.obligation(f"{FN_T}:{name}", False, "skipped-after-3-failures", 0, "E1a")
+    for key, fn, SP, FN, bwhat in jobs:
+        if key not in which:
             continue
-        st, m, backend, secs = check_sat(hyps + [z3.Not(goal)], budget, want_model=False, both=(tier == "thorough"))
-        maxsecs = max(maxsecs, secs)
-        ok = st == "unsat"
-        rep.obligation(f"{FN_T}:{name}", ok, backend, secs, "E1a", sample=(f"{name}: {len(hyps)} hypotheses |- {str(z3.simplify(goal))[:300]}" if len(rep.samples) < 3 else None))
-        if not ok:
-            failed.append((name, st))
-    rep.extra["toposort_vcs"] = dict(generated=len(obl), max_solver_seconds=round(maxsecs, 2), budget_ms=budget)
-    # vacuity probes: False must not be provable from the hypotheses of any loop-head / exit state
-    probes = [o for o in obl if o[0].startswith(("ensures:T4", "preserve:loop1", "preserve:loop3")) and o[0].endswith(("len>=0", "status-range", "T4-first-is-end"))]
-    nv = 0
-    for name, hyps, goal in probes[:6]:
-        st, _, _, _ = check_sat(hyps, 3000, want_model=False, use_cvc5=False)
-        nv += st == "unsat"
-    rep.canary(f"{FN_T}:vacuity-probes({len(probes[:6])})", nv == 0)
-    if not failed and maxsecs > 0.3 * budget / 1000:
-        rep.error(f"an obligation used {maxsecs:.1f}s of a {budget / 1000:.0f}s budget on a tree where it discharges: unstable proof")
-    if failed:
-        first = run_bounded(rep, tier, what=("toposort",))
-        if FN_T not in first:
-            nm, st = failed[0]
-            rep.violation(f"{FN_T}:{nm.split(':')[0]}", nm, f"obligation {nm} no longer discharges ({st}); exhaustive search over all graphs within the bound found no failing graph",
-                          witness=False, solver_output=f"{st} on {[f[0] for f in failed]}")
+        rep.function(FN, fn)
+        try:
+            gen = pyvc.VCGen(fn, SP)
+            obl = gen.run()
+            if gen.loop_n != SP.EXPECT["loops"]:
+                raise pyvc.ExtractError(f"{gen.loop_n} loops, contract expects {SP.EXPECT['loops']}")
+        except (pyvc.ExtractError, KeyError, AttributeError, TypeError, z3.Z3Exception) as e:
+            rep.obligation(f"{FN}:extract", False, "-", 0, "E1a")
+            first = run_bounded(rep, tier, what=bwhat)
+            if FN not in first:
+                rep.violation(f"{FN}:extract", "extract", f"the function no longer fits the verified subset / contract shape ({type(e).__name__}: {e}): the proof does not cover the running code; "
+                              "exhaustive search over all graphs within the bound found no failing graph", witness=False, solver_output=str(e))
+            continue
+        failed, maxsecs = [], 0.0
+        for name, hyps, goal in obl:
+            if len(failed) >= 3:
+                rep.obligation(f"{FN}:{name}", False, "skipped-after-3-failures", 0, "E1a")
+                continue
+            st, m, backend, secs = check_sat(hyps + [z3.Not(goal)], budget, want_model=False, both=(tier == "thorough"))
+            maxsecs = max(maxsecs, secs)
+            ok = st == "unsat"
+            rep.obligation(f"{FN}:{name}", ok, backend, secs, "E1a", sample=(f"{FN}:{name}: {len(hyps)} hypotheses |- {str(z3.simplify(goal))[:300]}" if len(rep.samples) < 4 else None))
+            if not ok:
+                failed.append((name, st))
+        rep.extra[f"{key}_vcs"] = dict(generated=len(obl), max_solver_seconds=round(maxsecs, 2), budget_ms=budget)
+        # vacuity probes: False must not be provable from the hypotheses of loop-head / exit states
+        nv = 0
+        probes = obl[::17][:4]
+        for name, hyps, goal in probes:
+            sv = z3.Solver()
+            sv.set("timeout", 1500)
+            sv.add(*hyps)
+            nv += sv.check() == z3.unsat
+        rep.canary(f"{FN}:vacuity-probes({len(probes)})", nv == 0)
+        if not failed and maxsecs > 0.3 * budget / 1000:
+            rep.error(f"{FN}: an obligation used {maxsecs:.1f}s of a {budget / 1000:.0f}s budget on a tree where it discharges: unstable proof")
+        if failed:
+            first = run_bounded(rep, tier, what=bwhat)
+            if FN not in first:
+                nm, st = failed[0]
+                rep.violation(f"{FN}:{nm.split(':')[0]}", nm, f"obligation {nm} no longer discharges ({st}); exhaustive search over all graphs within the bound found no failing graph",
+                              witness=False, solver_output=f"{st} on {[f[0] for f in failed]}")
